@@ -14,10 +14,10 @@ open MpVerif.CSem MpVerif.Gen MpVerif.Gen.NLGuards
 def sameSet (a b : List Int) : Bool := a.all (b.contains ·) && b.all (a.contains ·)
 
 /-- every `if (..) ReportError(..)` of the reader classes and every `ReadUInt(..)` bound the model knows about -/
-def knownGuards : List String := ["g_BinaryReader_ReadUInt__expected_unsigned_integer", "g_BinaryReaderBase_Read_i__unexpected_end_of_file", "g_NLReader_ReadUInt_u__integer_N_out_of_bounds", "g_NLReader_ReadUInt_u_u__integer_N_out_of_bounds", "g_NLReader_ReadNumArgs_i__too_few_arguments", "g_NLReader_ReadReference__expected_reference", "g_NLReader_ReadOpCode__invalid_opcode_N", "g_NLReader_ReadNumericExpr_i__too_few_slopes_in_piecewise_linear_term", "g_NLReader_ReadLogicalExpr_i__expected_count_expression", "g_NLReader_ReadBounds__integer_N_out_of_bounds", "g_NLReader_ReadColumnSizes__expected_N", "g_NLReader_ReadColumnSizes__invalid_column_offset", "g_NLReader_ReadInitialValues__too_many_initial_values", "g_NLReader_Read__invalid_function_type", "g_NLReader_Read__invalid_suffix_kind", "g_TextReader_ReadString__expected", "g_TextReader_ReadString__unexpected_end_of_file_in_string", "g_TextReader_ReadString__expected_newline", "g_TextReader_ReadName__expected_name", "g_TextReader_ReadHeader__too_many_options", "g_TextReader_ReadHeader__integer_overflow", "g_TextReader_ReadHeader__integer_overflow_2", "g_TextReader_ReadHeader__unknown_floating_point_arithmetic_kind", "g_TextReader_ReadIntWithoutSign_i__number_is_too_big", "g_TextReader_ReadIntWithoutSign_u__number_is_too_big", "g_TextReader_ReadIntWithoutSign_ul__number_is_too_big", "g_TextReader_ReadIntWithoutSign_us__number_is_too_big", "g_TextReader_ReadIntWithoutSign_i__number_is_too_big_2", "g_TextReader_ReadIntWithoutSign_u__number_is_too_big_2", "g_TextReader_ReadIntWithoutSign_ul__number_is_too_big_2", "g_TextReader_ReadIntWithoutSign_us__number_is_too_big_2", "g_TextReader_DoReadOptionalInt_i__number_is_too_big", "g_TextReader_DoReadOptionalInt_l__number_is_too_big", "g_TextReader_DoReadOptionalInt_s__number_is_too_big", "g_TextReader_ReadUInt_i__integer_overflow", "g_TextReader_ReadUInt__expected_unsigned_integer", "g_TextReader_ReadInt__expected_integer", "g_TextReader_ReadDouble__expected_double", "bound_NLReader_DoReadReference_1_ub", "bound_NLReader_Read_1_ub", "bound_NLReader_Read_2_ub", "bound_NLReader_Read_3_ub", "bound_NLReader_Read_4_lb", "bound_NLReader_Read_4_ub", "bound_NLReader_Read_5_ub", "bound_NLReader_ReadInitialValues_1_ub", "bound_NLReader_ReadLinearExpr_1_ub", "bound_NLReader_ReadLinearExpr_2_lb", "bound_NLReader_ReadLinearExpr_2_ub", "bound_NLReader_ReadLinearExpr_i_1_ub", "bound_NLReader_ReadNumericExpr_c_b_1_ub", "bound_NLReader_ReadSuffixValues_i_i_1_ub", "bound_NLReader_ReadSuffix_i_1_lb", "bound_NLReader_ReadSuffix_i_1_ub", "bound_TextReader_ReadHeader_1_ub", "bound_TextReader_ReadHeader_2_ub", "bound_TextReader_ReadHeader_3_ub", "bound_TextReader_ReadHeader_4_ub", "bound_TextReader_ReadHeader_5_ub", "site_NLReader_DoReadReference_1_ub", "site_NLReader_Read_1_ub", "site_NLReader_Read_2_ub", "site_NLReader_Read_3_ub", "site_NLReader_Read_4_lb", "site_NLReader_Read_4_ub", "site_NLReader_Read_5_ub", "site_NLReader_ReadLinearExpr_2_ub", "site_NLReader_ReadLinearExpr_i_1_ub", "site_NLReader_ReadNumericExpr_c_b_1_ub", "items_AlgebraicConHandler", "items_ConHandler", "items_ObjHandler", "items_ProblemHandler", "items_VarHandler", "assign_num_vars_and_exprs", "itemsOfSegment", "itemsOfSuffixKind"]
+def knownGuards : List String := ["g_BinaryReader_ReadUInt__expected_unsigned_integer", "g_BinaryReaderBase_Read_i__unexpected_end_of_file", "g_NLReader_ReadUInt_u__integer_N_out_of_bounds", "g_NLReader_ReadUInt_u_u__integer_N_out_of_bounds", "g_NLReader_ReadNumArgs_i__too_few_arguments", "g_NLReader_ReadReference__expected_reference", "g_NLReader_ReadOpCode__invalid_opcode_N", "g_NLReader_ReadNumericExpr_i__too_few_slopes_in_piecewise_linear_term", "g_NLReader_ReadLogicalExpr_i__expected_count_expression", "g_NLReader_ReadBounds__integer_N_out_of_bounds", "g_NLReader_ReadColumnSizes__expected_N", "g_NLReader_ReadColumnSizes__invalid_column_offset", "g_NLReader_ReadInitialValues__too_many_initial_values", "g_NLReader_Read__invalid_function_type", "g_NLReader_Read__invalid_suffix_kind", "g_TextReader_ReadString__expected", "g_TextReader_ReadString__unexpected_end_of_file_in_string", "g_TextReader_ReadString__expected_newline", "g_TextReader_ReadName__expected_name", "g_TextReader_ReadHeader__too_many_options", "g_TextReader_ReadHeader__integer_overflow", "g_TextReader_ReadHeader__integer_overflow_2", "g_TextReader_ReadHeader__unknown_floating_point_arithmetic_kind", "g_TextReader_ReadIntWithoutSign_i__number_is_too_big", "g_TextReader_ReadIntWithoutSign_u__number_is_too_big", "g_TextReader_ReadIntWithoutSign_ul__number_is_too_big", "g_TextReader_ReadIntWithoutSign_us__number_is_too_big", "g_TextReader_ReadIntWithoutSign_i__number_is_too_big_2", "g_TextReader_ReadIntWithoutSign_u__number_is_too_big_2", "g_TextReader_ReadIntWithoutSign_ul__number_is_too_big_2", "g_TextReader_ReadIntWithoutSign_us__number_is_too_big_2", "g_TextReader_DoReadOptionalInt_i__number_is_too_big", "g_TextReader_DoReadOptionalInt_l__number_is_too_big", "g_TextReader_DoReadOptionalInt_s__number_is_too_big", "g_TextReader_ReadUInt_i__integer_overflow", "g_TextReader_ReadUInt__expected_unsigned_integer", "g_TextReader_ReadInt__expected_integer", "g_TextReader_ReadDouble__expected_double", "bound_NLReader_DoReadReference_1_ub", "bound_NLReader_Read_1_ub", "bound_NLReader_Read_2_ub", "bound_NLReader_Read_3_ub", "bound_NLReader_Read_4_lb", "bound_NLReader_Read_4_ub", "bound_NLReader_Read_5_ub", "bound_NLReader_ReadInitialValues_1_ub", "bound_NLReader_ReadLinearExpr_1_ub", "bound_NLReader_ReadLinearExpr_2_lb", "bound_NLReader_ReadLinearExpr_2_ub", "bound_NLReader_ReadLinearExpr_i_1_ub", "bound_NLReader_ReadNumericExpr_c_b_1_ub", "bound_NLReader_ReadSuffixValues_i_i_1_ub", "bound_NLReader_ReadSuffix_i_1_lb", "bound_NLReader_ReadSuffix_i_1_ub", "bound_TextReader_ReadHeader_1_ub", "bound_TextReader_ReadHeader_2_ub", "bound_TextReader_ReadHeader_3_ub", "bound_TextReader_ReadHeader_4_ub", "bound_TextReader_ReadHeader_5_ub", "site_NLReader_DoReadReference_1_ub", "site_NLReader_Read_1_ub", "site_NLReader_Read_2_ub", "site_NLReader_Read_3_ub", "site_NLReader_Read_4_lb", "site_NLReader_Read_4_ub", "site_NLReader_Read_5_ub", "site_NLReader_ReadLinearExpr_2_ub", "site_NLReader_ReadLinearExpr_i_1_ub", "site_NLReader_ReadNumericExpr_c_b_1_ub", "items_AlgebraicConHandler", "items_ConHandler", "items_ObjHandler", "items_ProblemHandler", "items_VarHandler", "assign_num_vars_and_exprs", "itemsOfSegment", "itemsOfSuffixKind", "acc_next", "acc_value", "acc_init"]
 
 /-- which source variables / header fields / calls each of them reads (parameter order of the generated definition) -/
-def knownParams : List (String × List String) := [("g_BinaryReader_ReadUInt__expected_unsigned_integer", ["v_value"]), ("g_BinaryReaderBase_Read_i__unexpected_end_of_file", ["pdiff_end_ptr", "v_length"]), ("g_NLReader_ReadUInt_u__integer_N_out_of_bounds", ["v_value", "v_ub"]), ("g_NLReader_ReadUInt_u_u__integer_N_out_of_bounds", ["v_value", "v_lb", "v_ub"]), ("g_NLReader_ReadNumArgs_i__too_few_arguments", ["v_num_args", "v_min_args"]), ("g_NLReader_ReadReference__expected_reference", ["c_ReadChar"]), ("g_NLReader_ReadOpCode__invalid_opcode_N", ["v_opcode", "k_MAX_OPCODE"]), ("g_NLReader_ReadNumericExpr_i__too_few_slopes_in_piecewise_linear_term", ["v_num_slopes"]), ("g_NLReader_ReadLogicalExpr_i__expected_count_expression", ["v_c", "m_kind", "k_COUNT"]), ("g_NLReader_ReadBounds__integer_N_out_of_bounds", ["v_var_index", "m_num_vars"]), ("g_NLReader_ReadColumnSizes__expected_N", ["m_num_vars", "c_ReadUInt"]), ("g_NLReader_ReadColumnSizes__invalid_column_offset", ["v_size", "v_prev_size"]), ("g_NLReader_ReadInitialValues__too_many_initial_values", ["v_num_values", "c_num_items"]), ("g_NLReader_Read__invalid_function_type", ["v_type", "k_NUMERIC", "k_SYMBOLIC"]), ("g_NLReader_Read__invalid_suffix_kind", ["v_info", "k_SUFFIX_KIND_MASK", "k_FLOAT"]), ("g_TextReader_ReadString__expected", ["deref_ptr"]), ("g_TextReader_ReadString__unexpected_end_of_file_in_string", ["deref_ptr", "peq_ptr_end"]), ("g_TextReader_ReadString__expected_newline", ["deref_ptr"]), ("g_TextReader_ReadName__expected_name", ["deref_ptr"]), ("g_TextReader_ReadHeader__too_many_options", ["m_num_ampl_options", "k_MAX_AMPL_OPTIONS"]), ("g_TextReader_ReadHeader__integer_overflow", ["m_num_logical_cons", "m_num_algebraic_cons"]), ("g_TextReader_ReadHeader__integer_overflow_2", ["m_num_compl_conds", "m_num_nl_compl_conds"]), ("g_TextReader_ReadHeader__unknown_floating_point_arithmetic_kind", ["v_arith_kind", "k_LAST"]), ("g_TextReader_ReadIntWithoutSign_i__number_is_too_big", ["v_result", "v_c"]), ("g_TextReader_ReadIntWithoutSign_u__number_is_too_big", ["v_result", "v_c"]), ("g_TextReader_ReadIntWithoutSign_ul__number_is_too_big", ["v_result", "v_c"]), ("g_TextReader_ReadIntWithoutSign_us__number_is_too_big", ["v_result", "v_c"]), ("g_TextReader_ReadIntWithoutSign_i__number_is_too_big_2", ["v_result"]), ("g_TextReader_ReadIntWithoutSign_u__number_is_too_big_2", ["v_result"]), ("g_TextReader_ReadIntWithoutSign_ul__number_is_too_big_2", ["v_result"]), ("g_TextReader_ReadIntWithoutSign_us__number_is_too_big_2", ["v_result"]), ("g_TextReader_DoReadOptionalInt_i__number_is_too_big", ["deref_ptr", "v_result"]), ("g_TextReader_DoReadOptionalInt_l__number_is_too_big", ["deref_ptr", "v_result"]), ("g_TextReader_DoReadOptionalInt_s__number_is_too_big", ["deref_ptr", "v_result"]), ("g_TextReader_ReadUInt_i__integer_overflow", ["v_accumulator", "v_value"]), ("g_TextReader_ReadUInt__expected_unsigned_integer", ["c_ReadIntWithoutSign"]), ("g_TextReader_ReadInt__expected_integer", ["c_DoReadOptionalInt"]), ("g_TextReader_ReadDouble__expected_double", ["peq_ptr_start"]), ("bound_NLReader_DoReadReference_1_ub", ["m_num_vars_and_exprs"]), ("bound_NLReader_Read_1_ub", ["m_num_algebraic_cons"]), ("bound_NLReader_Read_2_ub", ["m_num_logical_cons"]), ("bound_NLReader_Read_3_ub", ["m_num_objs"]), ("bound_NLReader_Read_4_lb", ["m_num_vars"]), ("bound_NLReader_Read_4_ub", ["m_num_vars_and_exprs"]), ("bound_NLReader_Read_5_ub", ["m_num_funcs"]), ("bound_NLReader_ReadInitialValues_1_ub", ["c_num_items"]), ("bound_NLReader_ReadLinearExpr_1_ub", ["c_num_items"]), ("bound_NLReader_ReadLinearExpr_2_lb", []), ("bound_NLReader_ReadLinearExpr_2_ub", ["m_num_vars"]), ("bound_NLReader_ReadLinearExpr_i_1_ub", ["m_num_vars"]), ("bound_NLReader_ReadNumericExpr_c_b_1_ub", ["m_num_funcs"]), ("bound_NLReader_ReadSuffixValues_i_i_1_ub", ["v_num_items"]), ("bound_NLReader_ReadSuffix_i_1_lb", []), ("bound_NLReader_ReadSuffix_i_1_ub", ["v_num_items"]), ("bound_TextReader_ReadHeader_1_ub", ["v_max_vars"]), ("bound_TextReader_ReadHeader_2_ub", ["v_max_vars"]), ("bound_TextReader_ReadHeader_3_ub", ["v_max_vars"]), ("bound_TextReader_ReadHeader_4_ub", ["v_max_vars"]), ("bound_TextReader_ReadHeader_5_ub", ["v_max_vars"]), ("site_NLReader_DoReadReference_1_ub", ["m_num_vars_and_exprs"]), ("site_NLReader_Read_1_ub", ["m_num_algebraic_cons"]), ("site_NLReader_Read_2_ub", ["m_num_logical_cons"]), ("site_NLReader_Read_3_ub", ["m_num_objs"]), ("site_NLReader_Read_4_lb", ["m_num_vars"]), ("site_NLReader_Read_4_ub", ["m_num_vars_and_exprs"]), ("site_NLReader_Read_5_ub", ["m_num_funcs"]), ("site_NLReader_ReadLinearExpr_2_ub", ["m_num_vars"]), ("site_NLReader_ReadLinearExpr_i_1_ub", ["m_num_vars"]), ("site_NLReader_ReadNumericExpr_c_b_1_ub", ["m_num_funcs"]), ("items_AlgebraicConHandler", ["m_num_algebraic_cons"]), ("items_ConHandler", ["m_num_algebraic_cons", "m_num_logical_cons"]), ("items_ObjHandler", ["m_num_objs"]), ("items_ProblemHandler", []), ("items_VarHandler", ["m_num_vars"]), ("assign_num_vars_and_exprs", ["m_num_vars", "m_num_common_exprs_in_both", "m_num_common_exprs_in_cons", "m_num_common_exprs_in_objs", "m_num_common_exprs_in_single_cons", "m_num_common_exprs_in_single_objs"]), ("itemsOfSegment", ["letter"]), ("itemsOfSuffixKind", ["kind"])]
+def knownParams : List (String × List String) := [("g_BinaryReader_ReadUInt__expected_unsigned_integer", ["v_value"]), ("g_BinaryReaderBase_Read_i__unexpected_end_of_file", ["pdiff_end_ptr", "v_length"]), ("g_NLReader_ReadUInt_u__integer_N_out_of_bounds", ["v_value", "v_ub"]), ("g_NLReader_ReadUInt_u_u__integer_N_out_of_bounds", ["v_value", "v_lb", "v_ub"]), ("g_NLReader_ReadNumArgs_i__too_few_arguments", ["v_num_args", "v_min_args"]), ("g_NLReader_ReadReference__expected_reference", ["c_ReadChar"]), ("g_NLReader_ReadOpCode__invalid_opcode_N", ["v_opcode", "k_MAX_OPCODE"]), ("g_NLReader_ReadNumericExpr_i__too_few_slopes_in_piecewise_linear_term", ["v_num_slopes"]), ("g_NLReader_ReadLogicalExpr_i__expected_count_expression", ["v_c", "m_kind", "k_COUNT"]), ("g_NLReader_ReadBounds__integer_N_out_of_bounds", ["v_var_index", "m_num_vars"]), ("g_NLReader_ReadColumnSizes__expected_N", ["m_num_vars", "c_ReadUInt"]), ("g_NLReader_ReadColumnSizes__invalid_column_offset", ["v_size", "v_prev_size"]), ("g_NLReader_ReadInitialValues__too_many_initial_values", ["v_num_values", "c_num_items"]), ("g_NLReader_Read__invalid_function_type", ["v_type", "k_NUMERIC", "k_SYMBOLIC"]), ("g_NLReader_Read__invalid_suffix_kind", ["v_info", "k_SUFFIX_KIND_MASK", "k_FLOAT"]), ("g_TextReader_ReadString__expected", ["deref_ptr"]), ("g_TextReader_ReadString__unexpected_end_of_file_in_string", ["deref_ptr", "peq_ptr_end"]), ("g_TextReader_ReadString__expected_newline", ["deref_ptr"]), ("g_TextReader_ReadName__expected_name", ["deref_ptr"]), ("g_TextReader_ReadHeader__too_many_options", ["m_num_ampl_options", "k_MAX_AMPL_OPTIONS"]), ("g_TextReader_ReadHeader__integer_overflow", ["m_num_logical_cons", "m_num_algebraic_cons"]), ("g_TextReader_ReadHeader__integer_overflow_2", ["m_num_compl_conds", "m_num_nl_compl_conds"]), ("g_TextReader_ReadHeader__unknown_floating_point_arithmetic_kind", ["v_arith_kind", "k_LAST"]), ("g_TextReader_ReadIntWithoutSign_i__number_is_too_big", ["v_result", "v_c"]), ("g_TextReader_ReadIntWithoutSign_u__number_is_too_big", ["v_result", "v_c"]), ("g_TextReader_ReadIntWithoutSign_ul__number_is_too_big", ["v_result", "v_c"]), ("g_TextReader_ReadIntWithoutSign_us__number_is_too_big", ["v_result", "v_c"]), ("g_TextReader_ReadIntWithoutSign_i__number_is_too_big_2", ["v_result"]), ("g_TextReader_ReadIntWithoutSign_u__number_is_too_big_2", ["v_result"]), ("g_TextReader_ReadIntWithoutSign_ul__number_is_too_big_2", ["v_result"]), ("g_TextReader_ReadIntWithoutSign_us__number_is_too_big_2", ["v_result"]), ("g_TextReader_DoReadOptionalInt_i__number_is_too_big", ["deref_ptr", "v_result"]), ("g_TextReader_DoReadOptionalInt_l__number_is_too_big", ["deref_ptr", "v_result"]), ("g_TextReader_DoReadOptionalInt_s__number_is_too_big", ["deref_ptr", "v_result"]), ("g_TextReader_ReadUInt_i__integer_overflow", ["v_accumulator", "v_value"]), ("g_TextReader_ReadUInt__expected_unsigned_integer", ["c_ReadIntWithoutSign"]), ("g_TextReader_ReadInt__expected_integer", ["c_DoReadOptionalInt"]), ("g_TextReader_ReadDouble__expected_double", ["peq_ptr_start"]), ("bound_NLReader_DoReadReference_1_ub", ["m_num_vars_and_exprs"]), ("bound_NLReader_Read_1_ub", ["m_num_algebraic_cons"]), ("bound_NLReader_Read_2_ub", ["m_num_logical_cons"]), ("bound_NLReader_Read_3_ub", ["m_num_objs"]), ("bound_NLReader_Read_4_lb", ["m_num_vars"]), ("bound_NLReader_Read_4_ub", ["m_num_vars_and_exprs"]), ("bound_NLReader_Read_5_ub", ["m_num_funcs"]), ("bound_NLReader_ReadInitialValues_1_ub", ["c_num_items"]), ("bound_NLReader_ReadLinearExpr_1_ub", ["c_num_items"]), ("bound_NLReader_ReadLinearExpr_2_lb", []), ("bound_NLReader_ReadLinearExpr_2_ub", ["m_num_vars"]), ("bound_NLReader_ReadLinearExpr_i_1_ub", ["m_num_vars"]), ("bound_NLReader_ReadNumericExpr_c_b_1_ub", ["m_num_funcs"]), ("bound_NLReader_ReadSuffixValues_i_i_1_ub", ["v_num_items"]), ("bound_NLReader_ReadSuffix_i_1_lb", []), ("bound_NLReader_ReadSuffix_i_1_ub", ["v_num_items"]), ("bound_TextReader_ReadHeader_1_ub", ["v_max_vars"]), ("bound_TextReader_ReadHeader_2_ub", ["v_max_vars"]), ("bound_TextReader_ReadHeader_3_ub", ["v_max_vars"]), ("bound_TextReader_ReadHeader_4_ub", ["v_max_vars"]), ("bound_TextReader_ReadHeader_5_ub", ["v_max_vars"]), ("site_NLReader_DoReadReference_1_ub", ["m_num_vars_and_exprs"]), ("site_NLReader_Read_1_ub", ["m_num_algebraic_cons"]), ("site_NLReader_Read_2_ub", ["m_num_logical_cons"]), ("site_NLReader_Read_3_ub", ["m_num_objs"]), ("site_NLReader_Read_4_lb", ["m_num_vars"]), ("site_NLReader_Read_4_ub", ["m_num_vars_and_exprs"]), ("site_NLReader_Read_5_ub", ["m_num_funcs"]), ("site_NLReader_ReadLinearExpr_2_ub", ["m_num_vars"]), ("site_NLReader_ReadLinearExpr_i_1_ub", ["m_num_vars"]), ("site_NLReader_ReadNumericExpr_c_b_1_ub", ["m_num_funcs"]), ("items_AlgebraicConHandler", ["m_num_algebraic_cons"]), ("items_ConHandler", ["m_num_algebraic_cons", "m_num_logical_cons"]), ("items_ObjHandler", ["m_num_objs"]), ("items_ProblemHandler", []), ("items_VarHandler", ["m_num_vars"]), ("assign_num_vars_and_exprs", ["m_num_vars", "m_num_common_exprs_in_both", "m_num_common_exprs_in_cons", "m_num_common_exprs_in_objs", "m_num_common_exprs_in_single_cons", "m_num_common_exprs_in_single_objs"]), ("itemsOfSegment", ["letter"]), ("itemsOfSuffixKind", ["kind"]), ("acc_next", ["v_accumulator", "v_value"]), ("acc_value", ["v_accumulator", "v_value"]), ("acc_init", ["m_num_vars"])]
 
 theorem C02_gen_all_guards_known : guardNames = knownGuards := rfl
 theorem C02_gen_guard_params : paramTable = knownParams := rfl
@@ -286,6 +286,32 @@ theorem C02_gen_expected_int (found : Bool) :
 /-- `ReadDouble`: the error is reported iff `strtod` did not advance (`ptr_ == start`) -/
 theorem C02_gen_expected_double (same : Bool) :
     g_TextReader_ReadDouble__expected_double (bi same) = .ret (bi same) := rfl
+
+/-! ### the accumulating `ReadUInt(int &accumulator)` and its use in `ReadHeader`
+
+`Site.accNext` / `Site.accValue` / `Site.accInit` (ModelSites.lean), which the modelled `tReadUIntAcc` and
+`readCommonExprs` call, are these generated functions; `C02_header_index_space` rests on `Site.accNext_eq`,
+`Site.accValue_eq`, `Site.accInit_eq`. -/
+
+/-- when the overflow guard does not fire, the caller's variable becomes `accumulator + value` (the parameter is a
+    reference and is assigned `+= value`) -/
+theorem C02_gen_acc_next (acc v : Nat) (h : ¬ G.accOverflow acc v) : acc_next acc v = .ret ((acc + v : Nat) : Int) := by
+  unfold acc_next; rw [cadd_tI_nat acc v h]; rfl
+/-- ... and the call returns the value read, not the accumulator -/
+theorem C02_gen_acc_value (acc v : Nat) (h : ¬ G.accOverflow acc v) : acc_value acc v = .ret (v : Int) := by
+  unfold acc_value; rw [cadd_tI_nat acc v h]; rfl
+/-- `int max_vars = header.num_vars` -/
+theorem C02_gen_acc_init (h : Header) : acc_init (hdrOf h) = .ret (h.num_vars : Int) := rfl
+/-- the model's accumulating read returns exactly these -/
+theorem C02_model_acc (acc v : Nat) (h : ¬ G.accOverflow acc v) :
+    Site.accNext acc v = acc + v ∧ Site.accValue acc v = v :=
+  ⟨Site.accNext_eq acc v h, Site.accValue_eq acc v h⟩
+example : acc_next 2147483640 7 = .ret 2147483647 := by decide
+example : acc_next 2147483640 8 = .ub := by decide
+/-- tripwire: the five accumulating calls, their target fields, the one variable they all pass -/
+theorem C02_gen_acc_targets : accTargets = [("num_common_exprs_in_both", "max_vars"), ("num_common_exprs_in_cons", "max_vars"),
+    ("num_common_exprs_in_objs", "max_vars"), ("num_common_exprs_in_single_cons", "max_vars"),
+    ("num_common_exprs_in_single_objs", "max_vars")] := rfl
 
 /-! ### the model dispatches on exactly these letters -/
 
